@@ -100,6 +100,7 @@ class C20(Property):
                        "probe.file-value-loss", "probe.file-binary-tail",
                        "probe.file-not-encodable", "probe.second-invocation",
                        "probe.translate-refused", "probe.file-too-deep",
+                       "probe.file-with-byte-order-mark",
                        "probe.validate-with-injected-fault"]
 
     # ---- files
@@ -111,6 +112,8 @@ class C20(Property):
                                "damaged", "not-encodable", "binary-tail"])
             if rng.random() < 0.04:
                 kind = "deep"
+            elif rng.random() < 0.05:
+                kind = "bom"
             stmts, toks, text, style = gen.render_doc(
                 rng, "default", max_stmts=rng.choice([1, 2, 4, 6]),
                 extended=rng.random() < 0.3)
@@ -151,6 +154,9 @@ class C20(Property):
                     "E = ()\n", "Z = 01:02:03.0000049\n"])
                 data = (extra + text).encode()
                 out.inc("probe.file-not-encodable")
+            elif kind == "bom":
+                data = b"\xef\xbb\xbf" + data
+                out.inc("probe.file-with-byte-order-mark")
             elif kind == "deep":
                 # nested far deeper than any parser here can follow: every
                 # dialect's load fails with a non-PVL exception
